@@ -69,8 +69,8 @@ PROPS = {
 
 # floors = 90 % of the obligation counts measured on the unchanged tree (quick: min over seeds 0 and 1; thorough: seed 0)
 _COUNTED = {
-    "quick": {"C01": 9298, "C02": 87117, "C03": 80539, "C04": 4929, "C05": 4298, "C06": 15698, "C07": 12698, "C08": 1690, "C09": 3505, "C10": 2818, "C11": 27313, "C12": 112906, "C13": 5259, "C14": 4368, "C15": 39699, "C16": 103884, "C17": 117494, "C18": 2984, "C19": 47},
-    "thorough": {"C01": 72633, "C02": 476183, "C03": 304651, "C04": 46798, "C05": 26242, "C06": 45210, "C07": 22019, "C08": 4789, "C09": 7792, "C10": 6420, "C11": 234168, "C12": 619956, "C13": 13587, "C14": 12811, "C15": 219536, "C16": 504804, "C17": 724232, "C18": 7628, "C19": 87},
+    "quick": {"C01": 9626, "C02": 90990, "C03": 84219, "C04": 5161, "C05": 4436, "C06": 16930, "C07": 13572, "C08": 2121, "C09": 3939, "C10": 3106, "C11": 29076, "C12": 117714, "C13": 5455, "C14": 4650, "C15": 41396, "C16": 108680, "C17": 122309, "C18": 3190, "C19": 55},
+    "thorough": {"C01": 75412, "C02": 499202, "C03": 323391, "C04": 48580, "C05": 27025, "C06": 55736, "C07": 29011, "C08": 10021, "C09": 11224, "C10": 8724, "C11": 250540, "C12": 650541, "C13": 15351, "C14": 15211, "C15": 235301, "C16": 538319, "C17": 759598, "C18": 9356, "C19": 157},
 }
 for _pid, _m in PROPS.items():
     _m["floor"] = {"quick": _COUNTED["quick"][_pid] * 9 // 10, "thorough": _COUNTED["thorough"][_pid] * 9 // 10}
